@@ -38,6 +38,9 @@ def _obs(seq):
 
 
 def build(ctx):
+    import harness.util as _U
+    _U.PRELUDE = 3      # every third object (by crc32 of its sequence) answers after a query history (util.prelude)
+    _U.DECORATE = 4     # every fourth sequence is handed to the constructor in another accepted spelling (util.decorate)
     rng = ctx.rng
     seqs = gen_seq.singletons_and_pairs()
     rnd = gen_seq.random_classes(rng, ctx.pick(150, 800), 3, ctx.pick(120, 500))
@@ -45,6 +48,12 @@ def build(ctx):
         t = list(s)
         rng.shuffle(t)
         seqs += [s, ''.join(t)]
+    # one residue type hundreds of times over (fixed-width counters wrap at 128 / 256 / 65536 is out of reach)
+    for r, n in [('G', 127), ('G', 128), ('Q', 255), ('G', 256), ('K', 257), ('E', 300), ('P', 384), ('S', 513)]:
+        other = ''.join(rng.choice(AAS) for _ in range(rng.randint(0, 40)))
+        t = list(r * n + other)
+        rng.shuffle(t)
+        seqs += [r * n, ''.join(t)]
     res = pmap(_obs, seqs)
     cases = []
     ctx.direct_failures = []
